@@ -67,7 +67,7 @@ func (storer *functionStorer) convertAndAddFunction(functionID string, function 
 
 func (storer *functionStorer) call(functionID string, args []*variable.Value) (*variable.Value, error) {
 	function, ok := storer.functionsByID[functionID]
-	if !ok {
+	if !ok || function == nil { // AddFunction(functionID, nil) registers nothing that can be called
 		return nil, fmt.Errorf("unknown function")
 	}
 	value, err := function(args)
